@@ -101,7 +101,7 @@ class C09(Prop):
     pid = "C09"
     prop_file = "Props/C09.v"
     module = "Props.C09"
-    gen_deps = ["Choice", "ChoiceFn", "Table", "StreamFn", "FmtFn", "AutoFn", "GlueFn", "MacrosFn"]
+    gen_deps = ["Choice", "ChoiceFn", "Table", "StreamFn", "FmtFn", "AutoFn", "GlueFn", "MacrosFn", "IsTerminalFn"]
     harness = ("h-core", "hcore")
     nontrivial_rule = (
         "cases: the full cross product global {Auto, AlwaysAnsi, Always, Never} x NO_COLOR {unset,'','0','1'} x CLICOLOR_FORCE {unset,'','0','1'} x "
@@ -125,6 +125,11 @@ class C09(Prop):
         "static USER = a threaded parameter, raw.is_terminal() = a boolean, #[cfg(windows)] blocks skipped)",
         "the child mode of harness/h-core/src/c09.rs (std::env::set_var/remove_var on one thread, result file instead of stdout) and harness/h-clap",
         "clap's own value parser (third party): only its observable accept/reject behaviour on the tested words is compared",
+        "third-party is_terminal_polyfill 1.48.1 and is-terminal 0.4.13 (the crate the polyfill forwards to in the version Cargo.lock pins; NOT "
+        "std::io::IsTerminal, that is polyfill 1.70.x): TRANSLATED from the cargo registry (tools/gen_fn_htmlescape.py generator IsTerminalFn: "
+        "impl_is_terminal! expanded from its own text; is-terminal's generic impl for the unix configuration) and proved to ask isatty about the descriptor "
+        "of the handle they are called on (Proofs/IsTerminalGen.v, c09_translated_polyfill_*); vocabulary: AsFd::as_fd / as_raw_fd and libc::isatty are the "
+        "operating system (Model/Glue.v pf_os)",
     ]
     assumptions = [
         "std::env::var_os and isatty (is_terminal_polyfill) report the child process's real environment and descriptors; a pty slave is a terminal, "
